@@ -26,6 +26,9 @@ def plan(tier, seed):
     n_json, per_json = (10, 250) if q else (16, 2500)
     for k in range(n_json):
         specs.append({"stratum": "json-x9-options", "family": "json", "n": per_json, "k": k, "all_options": True, "clean": True})
+    for k in range(2 if q else 8):
+        specs.append({"stratum": "json-big-costs", "family": "json", "n": 8 if q else 40, "k": k, "clean": True, "bigcost": True,
+                      "case_timeout": 120, "shrink": False})
     if not q:
         for k in range(8):
             specs.append({"stratum": "json-large-documents", "family": "json", "n": 150, "k": k, "clean": True, "profile": "large",
